@@ -374,3 +374,65 @@ Proof. intros k scale v u Hk d. replace (1 / k) with (/ k) by (field; lra). ring
 (* GammaLargeShape::sample: v * (d * scale) = scale * (d v) *)
 Theorem gamma_large_form : forall d scale v, v * (d * scale) = scale * (d * v).
 Proof. intros. ring. Qed.
+
+(* ---------------------------------------------------------------- (e) why the boost gives Gamma(k) for k < 1 *)
+
+(* conditionally on G = t the boosted variate t * u^(1/k) is below y exactly when u <= (y/t)^k: its
+   conditional cdf is min(1, (y/t)^k), whose y-derivative for y < t is k y^(k-1) t^(-k) *)
+Theorem gamma_boost_event : forall k t u y, 0 < k -> 0 < t -> 0 < u -> 0 < y ->
+  (t * Rpower u (1 / k) <= y <-> u <= Rpower (y / t) k).
+Proof.
+  intros k t u y Hk Ht Hu Hy.
+  assert (0 < y / t) as Hyt by (apply Rdiv_lt_0_compat; assumption).
+  assert (Rpower (Rpower u (1 / k)) k = u) as E1.
+  { rewrite Rpower_mult. replace (1 / k * k) with 1 by (field; lra). apply Rpower_1. exact Hu. }
+  assert (0 < Rpower u (1 / k)) as P1 by (unfold Rpower; apply exp_pos).
+  split; intros H.
+  - rewrite <- E1. apply Rle_Rpower_l; [lra|]. split; [exact P1|].
+    apply Rmult_le_reg_l with t; [exact Ht|]. replace (t * (y / t)) with y by (field; lra). exact H.
+  - destruct (Rle_lt_dec (t * Rpower u (1 / k)) y) as [L|L]; [exact L|]. exfalso.
+    assert (y / t < Rpower u (1 / k)) as L2.
+    { apply Rmult_lt_reg_l with t; [exact Ht|]. replace (t * (y / t)) with y by (field; lra). exact L. }
+    pose proof (Rlt_Rpower_l (y / t) (Rpower u (1 / k)) k Hk (conj Hyt L2)) as L3. rewrite E1 in L3. lra.
+Qed.
+
+(* the density kernel of the boosted variate at y: integrating the Gamma(k+1) kernel t^k e^-t against the
+   conditional density k y^(k-1) t^-k over t in (y, M) gives k y^(k-1) (e^-y - e^-M) ... *)
+Theorem gamma_boost_kernel : forall k y M, 0 < k -> 0 < y -> y < M ->
+  is_RInt (fun t => gamma_kernel (k + 1) t * (k * Rpower y (k - 1) * Rpower t (- k))) y M
+          (k * Rpower y (k - 1) * (exp (- y) - exp (- M))).
+Proof.
+  intros k y M Hk Hy HM.
+  apply (is_RInt_ext (fun t => (k * Rpower y (k - 1)) * exp (- t))).
+  - intros t Ht. rewrite Rmin_left, Rmax_right in Ht by lra.
+    unfold gamma_kernel. replace (k + 1 - 1) with k by ring.
+    assert (Rpower t k * Rpower t (- k) = 1) as E.
+    { rewrite <- Rpower_plus. replace (k + - k) with 0 by ring. apply Rpower_O. lra. }
+    replace (Rpower t k * exp (- t) * (k * Rpower y (k - 1) * Rpower t (- k)))
+      with (k * Rpower y (k - 1) * exp (- t) * (Rpower t k * Rpower t (- k))) by ring.
+    rewrite E. symmetry. apply Rmult_1_r.
+  - replace (k * Rpower y (k - 1) * (exp (- y) - exp (- M)))
+      with (scal (k * Rpower y (k - 1)) (minus (- exp (- M)) (- exp (- y)))) by (unfold scal, minus, plus, opp; cbn; unfold mult; cbn; ring).
+    apply (is_RInt_scal (fun t => exp (- t))).
+    apply (is_RInt_derive (fun t => - exp (- t)) (fun t => exp (- t))).
+    + intros t _. auto_derive; [exact I|ring].
+    + intros t _. apply continuity_pt_filterlim. apply derivable_continuous_pt.
+      apply (derivable_pt_comp (fun x => - x) exp); [apply derivable_pt_opp, derivable_pt_id|apply derivable_pt_exp].
+Qed.
+
+(* ... which tends to k * y^(k-1) e^-y = k * (Gamma(k) kernel at y) as M -> infinity; with Gamma(k+1) = k Gamma(k)
+   the normalised density of the boosted variate is the Gamma(k) density.  (The interchange of d/dy with the
+   t-integral and the passage to the law of the sampler are the bridge B1-B4, not formalised.) *)
+Theorem gamma_boost_kernel_limit : forall k y, 0 < k -> 0 < y ->
+  is_lim (fun M => k * Rpower y (k - 1) * (exp (- y) - exp (- M))) p_infty (k * gamma_kernel k y).
+Proof.
+  intros k y Hk Hy. unfold gamma_kernel.
+  replace (k * (Rpower y (k - 1) * exp (- y))) with (k * Rpower y (k - 1) * (exp (- y) - 0)) by ring.
+  apply (is_lim_scal_l (fun M => exp (- y) - exp (- M)) (k * Rpower y (k - 1)) p_infty (exp (- y) - 0)).
+  apply (is_lim_minus' (fun _ => exp (- y)) (fun M => exp (- M)) p_infty (exp (- y)) 0).
+  - apply is_lim_const.
+  - apply (is_lim_comp exp Ropp p_infty 0 m_infty).
+    + apply is_lim_exp_m.
+    + replace m_infty with (Rbar_opp p_infty) by reflexivity. apply is_lim_opp. apply is_lim_id.
+    + exists 0. intros x _. discriminate.
+Qed.
